@@ -26,7 +26,6 @@ def runsStep (lc : List Int) (st : RS) (op : Nat × Nat) : RS :=
 def runsChain (lc : List Int) (p : List (Nat × Nat)) : List Int :=
   (p.foldl (runsStep lc) ⟨[1], fun _ => 0⟩).c
 
-#eval runsChain [1, 2, 3, 5, 10, 7] [(0,0),(0,1),(1,2),(3,3),(1,3)]
 
 /-! ### appending a sum of two members keeps a chain a chain -/
 theorem at'_append_left (c : List Int) (x : Int) (i : Nat) (h : i < c.length) : at' (c ++ [x]) i = at' c i := by
@@ -311,5 +310,4 @@ theorem runs_ok (steps : List (Nat × Nat)) (hv : ValidSteps [1] steps) :
   intro l hl
   exact (h.mem _).2 ⟨l, 0, hl, Nat.zero_le _, by simp⟩
 
-#print axioms runs_ok
 end P
